@@ -55,4 +55,354 @@ theorem lastDot_some {s : Str} {i : Nat} (h : lastDot s = some i) :
         simp [hc, hn]
       · simp [hc] at h
 
+-- ---------------------------------------------------------------- splitExt
+
+theorem splitExt_eq_none_iff (name : Str) :
+    splitExt name = none ↔ name = [] ∨ name = ['.', '.'] := by
+  unfold splitExt
+  split
+  · simp [*]
+  · rename_i h
+    simp only [h, iff_false]
+    split <;> simp
+
+theorem splitExt_of_lastDot {name : Str} {i : Nat} (hne : name ≠ []) (hdd : name ≠ ['.', '.'])
+    (h : lastDot name = some (i + 1)) :
+    splitExt name = some (name.take (i + 1), some (name.drop (i + 2))) := by
+  simp [splitExt, hne, hdd, h]
+
+/-- the forward computation: a non-empty stem, a dot, a dot-free extension (`".."` excepted) -/
+theorem splitExt_append_dot (a b : Str) (ha : a ≠ []) (hb : '.' ∉ b) (h : a ≠ ['.'] ∨ b ≠ []) :
+    splitExt (a ++ '.' :: b) = some (a, some b) := by
+  have hdd : a ++ '.' :: b ≠ ['.', '.'] := by
+    intro hh
+    cases a with
+    | nil => exact ha rfl
+    | cons x xs =>
+      cases xs with
+      | nil =>
+        simp at hh
+        rcases h with h | h
+        · exact h (by simp [hh.1])
+        · exact h hh.2
+      | cons y ys => simp at hh
+  obtain ⟨k, hk⟩ : ∃ k, a.length = k + 1 := by
+    cases a with
+    | nil => exact absurd rfl ha
+    | cons x xs => exact ⟨xs.length, rfl⟩
+  have hl : lastDot (a ++ '.' :: b) = some (k + 1) := by rw [lastDot_append_dot a b hb, hk]
+  rw [splitExt_of_lastDot (by simp) hdd hl, show k + 2 = a.length + 1 by omega, ← hk]
+  simp
+
+theorem splitExt_some_ext {name stem e : Str} (h : splitExt name = some (stem, some e)) :
+    name = stem ++ '.' :: e ∧ stem ≠ [] ∧ '.' ∉ e := by
+  unfold splitExt at h
+  split at h
+  · cases h
+  · split at h
+    · cases h
+    · cases h
+    · rename_i i hi h0
+      cases h
+      have := lastDot_some h0
+      refine ⟨this.1, ?_, this.2.1⟩
+      intro ht
+      have hlen := congrArg List.length ht
+      simp at hlen
+      rcases hlen with hlen | hlen
+      · exact hi hlen
+      · rw [hlen] at this; simp at this
+
+theorem splitExt_some_none {name stem : Str} (h : splitExt name = some (stem, none)) :
+    stem = name := by
+  unfold splitExt at h
+  split at h
+  · cases h
+  · split at h
+    · cases h; rfl
+    · cases h; rfl
+    · cases h
+
+/-- names with a file name and no extension: non-empty, not `..`, no dot after the first
+    character -/
+theorem plain_iff (s : Str) :
+    splitExt s = some (s, none) ↔ s ≠ [] ∧ s ≠ ['.', '.'] ∧ '.' ∉ s.tail := by
+  cases s with
+  | nil => simp [splitExt]
+  | cons c cs =>
+    by_cases hd : '.' ∈ cs
+    · simp only [List.tail_cons, hd, not_true_eq_false, and_false, iff_false]
+      intro h
+      have := splitExt_some_none h
+      cases hl : lastDot cs with
+      | none => exact ((lastDot_eq_none_iff cs).mp hl) hd
+      | some i =>
+        have hl' : lastDot (c :: cs) = some (i + 1) := by simp [lastDot, hl]
+        have hne : ¬ (c :: cs = [] ∨ c :: cs = ['.', '.']) := by
+          intro hh
+          rw [← splitExt_eq_none_iff] at hh
+          rw [hh] at h
+          cases h
+        simp [splitExt, hl'] at h
+    · have hl : lastDot cs = none := (lastDot_eq_none_iff cs).mpr hd
+      by_cases hdd : c :: cs = ['.', '.']
+      · simp [hdd, splitExt]
+      · by_cases hc : c = '.' <;> simp [splitExt, lastDot, hl, hc, hd, hdd]
+
+theorem plain_of_dotless (s : Str) (hne : s ≠ []) (hd : '.' ∉ s) : splitExt s = some (s, none) := by
+  rw [plain_iff]
+  refine ⟨hne, ?_, fun h => hd (List.mem_of_mem_tail h)⟩
+  intro h
+  rw [h] at hd
+  simp at hd
+
+theorem mem_of_splitExt_stem {name stem : Str} {x : Option Str} (h : splitExt name = some (stem, x))
+    {c : Char} (hc : c ∈ stem) : c ∈ name := by
+  cases x with
+  | none => rw [← splitExt_some_none h]; exact hc
+  | some e => rw [(splitExt_some_ext h).1]; simp [hc]
+
+-- ---------------------------------------------------------------- withExtension
+
+theorem withExtension_plain (s ext : Str) (h : splitExt s = some (s, none)) :
+    withExtension s ext = s ++ '.' :: ext := by
+  simp [withExtension, h]
+
+theorem take_length_sub (a b : Str) :
+    (a ++ '.' :: b).take ((a ++ '.' :: b).length - b.length) = a ++ ['.'] := by
+  have : (a ++ '.' :: b).length - b.length = (a ++ ['.']).length := by simp; omega
+  rw [this, show a ++ '.' :: b = (a ++ ['.']) ++ b by simp, List.take_left']
+  rfl
+
+/-- replacing an extension: the stem must not be `.` (then the copy `..` has no file stem) -/
+theorem withExtension_ext (a b ext : Str) (ha : a ≠ []) (ha' : a ≠ ['.']) (hb : '.' ∉ b) :
+    withExtension (a ++ '.' :: b) ext = a ++ '.' :: ext := by
+  have h1 := splitExt_append_dot a b ha hb (Or.inl ha')
+  have h2 := splitExt_append_dot a [] ha (by simp) (Or.inl ha')
+  simp only [withExtension, h1, take_length_sub, h2]
+
+theorem withExtension_dot_ext (b ext : Str) (hb : '.' ∉ b) (hne : b ≠ []) :
+    withExtension ('.' :: '.' :: b) ext = ['.', '.'] := by
+  have h1 := splitExt_append_dot ['.'] b (by simp) hb (Or.inr hne)
+  have h2 : splitExt ['.', '.'] = none := by decide
+  have := take_length_sub ['.'] b
+  simp only [List.cons_append, List.nil_append] at h1 this
+  simp only [withExtension, h1, this, h2]
+
+theorem withExtension_dotdot (ext : Str) : withExtension ['.', '.'] ext = ['.', '.'] := by
+  have h2 : splitExt ['.', '.'] = none := by decide
+  simp only [withExtension, h2]
+
+theorem mem_withExtension {s ext : Str} {c : Char} (h : c ∈ withExtension s ext) :
+    c ∈ s ∨ c = '.' ∨ c ∈ ext := by
+  unfold withExtension at h
+  have key : ∀ t : Str, (∀ c ∈ t, c ∈ s) →
+      c ∈ (match splitExt t with | none => t | some (st, _) => st ++ '.' :: ext) →
+      c ∈ s ∨ c = '.' ∨ c ∈ ext := by
+    intro t ht hc
+    split at hc
+    · exact Or.inl (ht c hc)
+    · rename_i st x hst
+      simp only [List.mem_append, List.mem_cons] at hc
+      rcases hc with hc | hc | hc
+      · exact Or.inl (ht c (mem_of_splitExt_stem hst hc))
+      · exact Or.inr (Or.inl hc)
+      · exact Or.inr (Or.inr hc)
+  apply key _ _ h
+  intro c hc
+  split at hc
+  · exact List.mem_of_mem_take hc
+  · exact hc
+
+-- ---------------------------------------------------------------- decimal, part markers
+
+theorem isDigit_eq (c : Char) : isDigit c = c.isDigit := by
+  simp [isDigit, Char.isDigit, Char.le_def]
+
+theorem decimal_ne_nil (n : Nat) : decimal n ≠ [] := Nat.toDigits_ne_nil
+
+theorem isDigit_of_mem_decimal {n : Nat} {c : Char} (h : c ∈ decimal n) : isDigit c = true := by
+  rw [isDigit_eq]
+  exact Nat.isDigit_of_mem_toDigits (by decide) (by decide) h
+
+/-- a left inverse of `decimal` -/
+def fromDecimal (s : Str) : Nat := Nat.ofDigitChars 10 s 0
+
+theorem fromDecimal_decimal (n : Nat) : fromDecimal (decimal n) = n :=
+  Nat.ofDigitChars_ten_toDigits
+
+theorem decimal_inj {n m : Nat} (h : decimal n = decimal m) : n = m := by
+  rw [← fromDecimal_decimal n, ← fromDecimal_decimal m, h]
+
+theorem not_mem_decimal_of_not_digit {n : Nat} {c : Char} (hc : isDigit c = false) :
+    c ∉ decimal n := by
+  intro h
+  rw [isDigit_of_mem_decimal h] at hc
+  cases hc
+
+/-- the extension `partN` -/
+abbrev partExt (n : Nat) : Str := partPrefix ++ decimal n
+
+theorem partExt_ne_nil (n : Nat) : partExt n ≠ [] := by simp [partExt, partPrefix]
+
+theorem dot_not_mem_partExt (n : Nat) : '.' ∉ partExt n := by
+  have : '.' ∉ decimal n := not_mem_decimal_of_not_digit (by decide)
+  simp [partExt, partPrefix, this]
+
+theorem slash_not_mem_partExt (n : Nat) : '/' ∉ partExt n := by
+  have : '/' ∉ decimal n := not_mem_decimal_of_not_digit (by decide)
+  simp [partExt, partPrefix, this]
+
+theorem partPrefix_isPrefixOf_partExt (n : Nat) : partPrefix.isPrefixOf (partExt n) = true := by
+  simp [partExt, partPrefix, List.isPrefixOf]
+
+theorem isPartMarker_partExt (n : Nat) : isPartMarker (partExt n) = true := by
+  have h1 : (partExt n).drop 4 = decimal n := by simp [partExt, partPrefix]
+  simp only [isPartMarker, partPrefix_isPrefixOf_partExt, h1, Bool.true_and, Bool.and_eq_true,
+    Bool.not_eq_true', List.all_eq_true]
+  refine ⟨?_, fun c hc => isDigit_of_mem_decimal hc⟩
+  cases h : decimal n with
+  | nil => exact absurd h (decimal_ne_nil n)
+  | cons _ _ => rfl
+
+theorem partExt_inj {n m : Nat} (h : partExt n = partExt m) : n = m :=
+  decimal_inj (List.append_cancel_left h)
+
+theorem partExt_not_pna (n : Nat) : (partExt n).map lower ≠ ['p', 'n', 'a'] := by
+  intro h
+  have := congrArg List.length h
+  have hd : 0 < (decimal n).length := List.length_pos_iff.mpr (decimal_ne_nil n)
+  simp [partExt, partPrefix] at this
+
+theorem isPartMarker_prefix {e : Str} (h : isPartMarker e = true) :
+    partPrefix.isPrefixOf e = true := by
+  simp only [isPartMarker, Bool.and_eq_true] at h
+  exact h.1.1
+
+theorem dot_not_mem_of_pna {e : Str} (h : e.map lower = ['p', 'n', 'a']) : '.' ∉ e := by
+  intro hd
+  have : lower '.' ∈ e.map lower := List.mem_map_of_mem hd
+  rw [h] at this
+  revert this
+  decide
+
+theorem pna_ne_nil {e : Str} (h : e.map lower = ['p', 'n', 'a']) : e ≠ [] := by
+  intro he
+  rw [he] at h
+  cases h
+
+theorem partPrefix_not_prefix_of_pna {e : Str} (h : e.map lower = ['p', 'n', 'a']) :
+    partPrefix.isPrefixOf e = false := by
+  have hl : e.length = 3 := by simpa using congrArg List.length h
+  match e, hl with
+  | [x, y, z], _ => simp [partPrefix, List.isPrefixOf]
+
+-- ---------------------------------------------------------------- predicates
+
+/-- the stem already carries a part marker: its own extension is `part` + digits -/
+def Numbered (stem : Str) : Prop :=
+  match splitExt stem with
+  | some (_, some e2) => isPartMarker e2 = true
+  | _ => False
+
+/-- the stem does not end in an extension beginning with `part` -/
+def NotMarked (stem : Str) : Prop :=
+  match splitExt stem with
+  | some (_, some e2) => ¬ partPrefix.isPrefixOf e2
+  | _ => True
+
+/-- The names on which renumbering is consistent (`good_iff_renumber`).  Names without extension
+    and names with a `pna` extension always are.  With any other extension `e` the first `withExt`
+    replaces the *two* last extensions of `stem.e` by `partN`, and every later one replaces one
+    more: the stem must not be `..`, and what is left of the stem without its own extension must
+    be a name without extension other than `.`. -/
+def Good (name : Str) : Prop :=
+  match splitExt name with
+  | some (stem, some e) =>
+    if e.map lower = ['p', 'n', 'a'] then True
+    else match splitExt stem with
+      | none => False
+      | some (_, none) => True
+      | some (s2, some _) => s2 ≠ ['.'] ∧ splitExt s2 = some (s2, none)
+  | _ => True
+
+instance : DecidablePred Numbered := fun stem => by
+  unfold Numbered
+  split <;> infer_instance
+
+instance : DecidablePred NotMarked := fun stem => by
+  unfold NotMarked
+  split <;> infer_instance
+
+instance : DecidablePred Good := fun name => by
+  unfold Good
+  split
+  · split
+    · infer_instance
+    · split <;> infer_instance
+  · infer_instance
+
+theorem not_numbered_of_notMarked {stem : Str} (h : NotMarked stem) : ¬ Numbered stem := by
+  unfold NotMarked at h
+  unfold Numbered
+  split
+  · rename_i e2 hs
+    simp only [hs] at h
+    exact fun hm => h (isPartMarker_prefix hm)
+  · exact id
+
+-- ---------------------------------------------------------------- withExt: computation
+
+theorem withExt_plain (name : Str) (n : Nat) (h : splitExt name = some (name, none)) :
+    withExt name n = some (name ++ '.' :: partExt n) := by
+  simp only [withExt, h, withExtension_plain _ _ h]
+
+theorem withExt_other {name stem e : Str} (n : Nat) (h : splitExt name = some (stem, some e))
+    (he : e.map lower ≠ ['p', 'n', 'a']) :
+    withExt name n = some (withExtension stem (partExt n)) := by
+  simp only [withExt, h, if_neg he]
+
+theorem withExt_pna_numbered {name stem e base e2 : Str} (n : Nat)
+    (h : splitExt name = some (stem, some e)) (he : e.map lower = ['p', 'n', 'a'])
+    (hs : splitExt stem = some (base, some e2)) (hm : isPartMarker e2 = true) :
+    withExt name n = some (base ++ '.' :: (partExt n ++ '.' :: e)) := by
+  simp only [withExt, h, he, if_true, hs, hm]
+  simp
+
+theorem withExt_pna_unnumbered {name stem e : Str} (n : Nat)
+    (h : splitExt name = some (stem, some e)) (he : e.map lower = ['p', 'n', 'a'])
+    (hm : ¬ Numbered stem) :
+    withExt name n = some (stem ++ '.' :: (partExt n ++ '.' :: e)) := by
+  unfold Numbered at hm
+  simp only [withExt, h, he, if_true]
+  cases hs : splitExt stem with
+  | none => simp
+  | some p =>
+    obtain ⟨b, x⟩ := p
+    cases x with
+    | none => simp
+    | some e2 =>
+      simp only [hs] at hm
+      simp [hm]
+
+/-- a part name without archive extension: `b.partN` -/
+theorem withExt_marked_plain (b : Str) (hb : splitExt b = some (b, none)) (n m : Nat) :
+    withExt (b ++ '.' :: partExt n) m = some (b ++ '.' :: partExt m) := by
+  have hne : b ≠ [] := ((plain_iff b).mp hb).1
+  have hs := splitExt_append_dot b (partExt n) hne (dot_not_mem_partExt n)
+    (Or.inr (partExt_ne_nil n))
+  rw [withExt_other m hs (partExt_not_pna n), withExtension_plain _ _ hb]
+
+/-- a part name of an archive: `b.partN.pna` -/
+theorem withExt_marked_pna (b e : Str) (hb : b ≠ []) (he : e.map lower = ['p', 'n', 'a'])
+    (n m : Nat) :
+    withExt (b ++ '.' :: (partExt n ++ '.' :: e)) m
+      = some (b ++ '.' :: (partExt m ++ '.' :: e)) := by
+  have hs1 := splitExt_append_dot b (partExt n) hb (dot_not_mem_partExt n)
+    (Or.inr (partExt_ne_nil n))
+  have hs := splitExt_append_dot (b ++ '.' :: partExt n) e (by simp) (dot_not_mem_of_pna he)
+    (Or.inr (pna_ne_nil he))
+  simp only [List.append_assoc, List.cons_append] at hs
+  exact withExt_pna_numbered m hs he hs1 (isPartMarker_partExt n)
+
 end Pna.Cli.PartName
